@@ -299,13 +299,23 @@ def c03_gen(tier, rng):
     P = G.pool()
     pairs = [(a, b) for a in P for b in P]
     if tier == "quick":
-        SP = G.small_pool()
+        SP = G.small_pool() + ["Ffff0000000000000", "F3fe0000000000000", "Fbfe0000000000000", "Fbff0000000000000", "F4000000000000000", "F4008000000000000", "I2", "I-2"]
         keep = set()
         # complete small pool, plus all same-type pairs of the full pool for the numeric rows
         pairs = [(a, b) for a in P for b in P if (a in SP and b in SP) or (a[0] in "IF" and b[0] in "IF" and rng.random() < 0.25)
                  or (a[0] == "S" and b[0] == "S")]
+        numeric = [(a, b) for a in P for b in P if a[0] in "IF" and b[0] in "IF"]
+
+        def boundary(v):     # where integer and double arithmetic part ways, and the special doubles
+            if v[0] == "I":
+                return abs(int(v[1:])) >= 2 ** 53 - 1 or abs(int(v[1:])) <= 1
+            f = G.bits_to_float(int(v[1:], 16))
+            return f != f or f == 0.0 or abs(f) >= 2.0 ** 52 or abs(f) in (0.5, 1.0)
+        B = [v for v in P if v[0] in "IF" and boundary(v)]
+        pairs = sorted(set(pairs) | set((a, b) for a in B for b in B) | set((a, b) for a in G.TUPLES + ["E"] for b in G.TUPLES + ["E"]))
     for op in G.BINOPS:
-        for a, b in pairs:
+        # `^` (routed to std), `/` and `%` (zero and infinite operands): the numeric rows completely, also in the quick tier
+        for a, b in (sorted(set(pairs) | set(numeric)) if tier == "quick" and op in ("^", "/", "%") else pairs):
             cases.append((G.op_case_vars(op, a, b), {"kind": "op-vars", "op": op, "a": a, "b": b}))
             if rng.random() < (1.0 if tier == "thorough" else 0.15):
                 lc = G.op_case_literals(op, a, b)
@@ -430,6 +440,23 @@ def c12_gen(tier, rng):
         kind = rng.choice(["H", "H", "H", "N", "E", "EB"])
         setup = C12_SETUP if kind in ("H", "N") else []
         cases.append(c12_case(kind, setup, s))
+    # ONE precompiled tree evaluated again and again while the context changes: always what the string gives then
+    muts = ["set %s I9" % hexs("a"), "setfn %s konst:I7" % hexs("f"), "setfn %s id" % hexs("g"), "off 1", "off 0", "clrf", "setfn %s konst:I1" % hexs("max"),
+            "set %s S%s" % (hexs("c"), hexs("pq")), "clrv", "init %s S%s" % (hexs("a"), hexs("str")), "setfn %s fail:%s" % (hexs("f"), hexs("no")),
+            "init %s I5" % hexs("q"), "setfn %s swap" % hexs("f"), "set %s F4004000000000000" % hexs("b"), "clr", "setfn %s id" % hexs("len")]
+    stored_srcs = ["f(1) + a", "f(a)", "max(1, 2)", "g(1,2)", "a + 1", "c", "len(c)", "typeof(a)", "h(1)", "a; b", "min(a, 4)", "f(f(a))", "q", "f g (1, 2)",
+                   "a = a + 1; a", "if(x, a, b)", "str::from(a) + c", "f(1)", "1 + 2", "max(a, b)", "len(\"abc\")"]
+    for _ in range(n // 4):
+        raw = G.rand_expr(rng, rng.randint(1, 3))
+        stored_srcs.append(G.render(G.flatten(G.parenthesize(raw)), None, "space"))
+    for src in stored_srcs:
+        for rep in range(2 if tier == "quick" else 6):
+            ops = list(C12_SETUP) + ["pre " + hexs(src)]
+            nblocks = rng.randint(2, 5)
+            for _b in range(nblocks):
+                ty = rng.choice("visnbte")
+                ops += ["evc smv " + hexs(src), "evpc mv", "evc srv " + hexs(src), "evpc rv", "evc sm%s %s" % (ty, hexs(src)), "evpc m" + ty, rng.choice(muts)]
+            cases.append((G.script("H", ops), {"kind": "stored-tree", "src": src, "nsetup": len(C12_SETUP) + 1, "nblocks": nblocks, "ops": ops}))
     for s1, s2 in C12_PAIRS:
         for kind in ("H", "EB"):
             cases.append(c12_case(kind, C12_SETUP if kind == "H" else [], s1, then=s2))
@@ -443,6 +470,15 @@ def c12_gen(tier, rng):
 
 def c12_oracle(case, out, model_out):
     m = case[1]
+    if m.get("kind") == "stored-tree" and not out.startswith("PANIC"):
+        steps = step_outputs(out)[m["nsetup"]:]
+        for b in range(m["nblocks"]):
+            blk = steps[7 * b:7 * b + 7]
+            for k in (0, 2, 4):
+                if blk[k] != blk[k + 1]:
+                    done = [o for o in m["ops"][m["nsetup"]:m["nsetup"] + 7 * b] if not o.startswith("ev")]
+                    return "the tree precompiled from %r, evaluated after the context changes %s, gives %s; evaluating the string at that moment gives %s" % (m["src"], done, blk[k + 1], blk[k])
+        return None
     if m.get("kind") != "all-entries":
         return None
     if out.startswith("PANIC"):
@@ -596,36 +632,50 @@ def c05_gen(tier, rng):
 
 
 def c05_value_case(rng):
-    """chain of tuples of simple elements: n | x | x = n | x += n | rec(n) | (nested seq); reference value,
-    final context and call log computed here; evaluated with a mutable or (without assignments) a shared context"""
+    """chain of tuples of simple elements: n | 2.5 | "s" | x | x = n | x += n | rec(n) | 1/0 | (nested seq); reference value,
+    final context and call log computed here; evaluated with a mutable or (without assignments) a shared context.
+    Elements are generated in evaluation order; after a failing element nothing has an effect any more."""
     env = {}
     log = []
     readonly = rng.random() < 0.35
+    st = {"dead": None}
+    long_seq = rng.random() < 0.25
 
     def elem(depth):
         k = rng.random()
+        live = st["dead"] is None
         if k < 0.1:
             return None, ("E", None)
-        if k < 0.3:
+        if k < 0.26:
             n = rng.randint(0, 9)
             return ("lit", str(n), "I%d" % n), ("I", n)
+        if k < 0.30:
+            return ("lit", "2.5", "F4004000000000000"), ("F", 0x4004000000000000)
+        if k < 0.34:
+            return ("lit", '"s"', "S73"), ("S", "s")
         if k < 0.45:
             n = rng.randint(0, 9)
-            log.append(n)
+            if live:
+                log.append(n)
             return ("call", "rec", ("lit", str(n), "I%d" % n)), ("I", n)
         if k < 0.6 and not readonly:
             x = rng.choice(["p", "q"])
             n = rng.randint(0, 9)
-            env[x] = n
+            if live:
+                env[x] = n
             return ("asg", "=", x, ("lit", str(n), "I%d" % n)), ("E", None)
-        if k < 0.7 and env:
+        if k < 0.7 and env and live:
             x = rng.choice(sorted(env))
             return ("var", x), ("I", env[x])
-        if k < 0.8 and env and not readonly:
+        if k < 0.8 and env and not readonly and live:
             x = rng.choice(sorted(env))
             n = rng.randint(0, 9)
             env[x] += n
             return ("asg", "+=", x, ("lit", str(n), "I%d" % n)), ("E", None)
+        if k < 0.83:
+            if live:
+                st["dead"] = "DivisionError"
+            return ("bin", "/", ("lit", "1", "I1"), ("lit", "0", "I0")), ("E", None)
         if depth < 2:
             s, v = seq(depth + 1)
             return ("paren", s), v
@@ -633,7 +683,7 @@ def c05_value_case(rng):
         return ("lit", str(n), "I%d" % n), ("I", n)
 
     def tup(depth):
-        items = [elem(depth) for _ in range(rng.randint(2, 3))]
+        items = [elem(depth) for _ in range(rng.randint(2, 6) if long_seq else rng.randint(2, 3))]
         return ("tuple", [i[0] for i in items]), ("T", [i[1] for i in items])
 
     def seq(depth):
@@ -641,7 +691,7 @@ def c05_value_case(rng):
         if k < 0.3:
             return tup(depth)
         parts = []
-        for _ in range(rng.randint(2, 4)):
+        for _ in range(rng.randint(2, 7) if long_seq else rng.randint(2, 4)):
             parts.append(tup(depth) if rng.random() < 0.4 else elem(depth))
         return ("chain", [p[0] for p in parts]), parts[-1][1]
 
@@ -650,10 +700,11 @@ def c05_value_case(rng):
     want_ctx = ",".join("%s=I%d" % (hexs(k), env[k]) for k in sorted(env, key=hexs))
     want_log = ",".join("%s(I%d)" % (hexs("rec"), n) for n in log)
     entry = rng.choice(["srv", "nrv"]) if readonly else rng.choice(["smv", "nmv"])
-    if rng.random() < 0.5:   # the typed entry point of the result's own type: same evaluation, same effects
+    if rng.random() < 0.5 and v[0] in "TEI":   # the typed entry point of the result's own type: same evaluation, same effects
         entry = entry[:2] + {"T": "t", "E": "e", "I": "i"}[v[0]]
+    want = "OK " + value_text(v) if st["dead"] is None else "ERR " + st["dead"]
     return (G.script("H", ["setfn %s id" % hexs("rec"), "ev %s %s" % (entry, hexs(src))]),
-            {"kind": "seq-value", "src": src, "entry": entry, "want": "OK " + value_text(v),
+            {"kind": "seq-value", "src": src, "entry": entry, "want": want,
              "want_tail": "CTX{%s;off=0;fns=%s} LOG[%s]" % (want_ctx, hexs("rec"), want_log)})
 
 
@@ -664,7 +715,8 @@ def c05_oracle(case, out, model_out):
     if m.get("kind") == "seq-value":
         steps = step_outputs(out)
         tail = out.split(" || ")[1] if " || " in out else ""
-        if steps[-1] != m["want"] or tail != m["want_tail"]:
+        got = steps[-1] if not m["want"].startswith("ERR") else strip_payload(steps[-1])
+        if got != m["want"] or tail != m["want_tail"]:
             return "evaluating %r (%s) gives %s with %s; every element is evaluated in order, a chain yields its last element and a tuple all of them: %s with %s" % (m["src"], m["entry"], steps[-1], tail, m["want"], m["want_tail"])
     return None
 
@@ -782,6 +834,20 @@ def c13_gen(tier, rng):
         for n in lens:
             for seq in itertools.product(alpha, repeat=n):
                 cases.append(c13_case(list(seq)))
+    for alpha, lens in ((["false", "true", "&&", "||", "!", "(", ")"], (4, 5)), (["0", "1", "*", "^", "(", ")", "!", "-"], (5,))):
+        for n in lens:
+            for seq in itertools.product(alpha, repeat=n):
+                cases.append(c13_case(list(seq)))
+    # a defective fragment inside an otherwise well-formed context that might not need its value: branches of `if`,
+    # right operands of `&&` / `||` with a deciding left operand, factors of 0, arguments of builtins and user functions
+    frags = ["!", "-", "1 +", "* 2", "( * )", "( ! )", "+", "1 2", "( 1 2 )", "a =", "! !", "( )  1", "1 ( )", "&& true", "1 <"]
+    ctxs = ["if ( true , 1 , {} )", "if ( false , {} , 2 )", "if ( true , {} , 2 )", "if ( {} , 1 , 2 )", "false && {}", "true || {}", "{} && false", "{} || true",
+            "1 > 2 && ( {} )", "0 * ( {} )", "( {} ) * 0", "( {} ) ^ 0", "1 ^ ( {} )", "typeof ( {} )", "len ( ( {} , 1 ) )", "contains ( ( 1 , 2 ) , {} )",
+            '"" + ( {} )', "f ( {} )", "f ( 1 , {} )", "min ( 1 , {} )", "( 1 , {} )", "1 ; {}", "{} ; 1", "a = ( {} )", "a = 1 ; {}", "str::from ( {} )",
+            "if ( true , 1 , ( {} ) )", "if ( true , 1 , f ( {} ) )", "true || ( false && {} )", "math::abs ( {} )", "- ( {} )", "! ( {} )"]
+    for cx in ctxs:
+        for fr in frags:
+            cases.append(c13_case(cx.format(fr).split()))
     # an operator directly after an operator, followed by two operands
     ops_all = sorted(BINARY_TOKENS) + ["-", "!", ",", ";"]
     for o1 in ops_all:
@@ -1041,6 +1107,10 @@ def c10_gen(tier, rng):
     for n in names:
         for a in P:
             add(n, a)
+        # random single arguments too (floats of every magnitude, integers, strings): the pool is finite
+        for _ in range(80 if tier == "quick" else 2000):
+            k = rng.random()
+            add(n, G.vF(G.rand_float_bits(rng)) if k < 0.6 else G.vI(G.clamp_i64(G.rand_int(rng))) if k < 0.8 else G.vS(G.rand_unicode_string(rng, 8)))
         pairs = [(a, b) for a in SP for b in SP]
         if n in ("bitand", "bitor", "bitxor", "shl", "shr", "min", "max", "math::pow", "math::log", "math::atan2", "math::hypot"):
             pairs += [(a, b) for a in ints for b in ints if rng.random() < (1.0 if tier == "thorough" else 0.25)]
@@ -1183,6 +1253,14 @@ def ref_eval(e, env, log, readonly=False):
         return ("I", -v[1])
     if k == "call":
         a = ref_eval(e[2], env, log, readonly)
+        if e[1] == "if":      # the builtin: an eager function of a 3-tuple like any other
+            if a[0] != "T":
+                raise Stop("ExpectedTuple")
+            if len(a[1]) != 3:
+                raise Stop("ExpectedFixedLengthTuple")
+            if a[1][0][0] != "B":
+                raise Stop("ExpectedBoolean")
+            return a[1][1] if a[1][0][1] else a[1][2]
         return ref_call(e[1], a, log)
     if k == "bin":
         a = ref_eval(e[2], env, log, readonly)
@@ -1219,6 +1297,14 @@ def ref_binop(op, a, b):
         if a[0] == "I" and b[0] == "I":
             return ("I", a[1] + b[1])
         raise Stop("WrongTypeCombination")
+    if op == "!=":
+        return ("B", not veq(a, b))
+    if op in ("<", ">", "<=", ">="):
+        for v in (a, b):
+            if v[0] not in "IF":
+                raise Stop("ExpectedNumberOrString")
+        x, y = a[1], b[1]
+        return ("B", {"<": x < y, ">": x > y, "<=": x <= y, ">=": x >= y}[op])
     if op in ("-", "*", "/", "%", "^"):
         for v in (a, b):
             if v[0] not in "IF":
@@ -1265,9 +1351,11 @@ def c08_rand_expr(r, depth, ty=None):
         return ("paren", ("chain", [("asg", op, x, c08_rand_expr(r, depth - 1, ty)), ("var", x)]))
     if k < 0.27:
         return ("paren", ("chain", [c08_rand_expr(r, depth - 1) if r.random() < 0.9 else None for _ in range(r.randint(1, 2))] + [c08_rand_expr(r, depth - 1, ty)]))
+    if k < 0.34:      # the builtin `if`: all three arguments are evaluated, in order, whatever the condition
+        return ("call", "if", ("paren", ("tuple", [c08_rand_expr(r, depth - 1, "B"), c08_rand_expr(r, depth - 1, ty), c08_rand_expr(r, depth - 1, ty)])))
     if ty == "I":
         if k < 0.7:
-            return ("bin", r.choice(["+", "+", "-", "*", "/"]), c08_rand_expr(r, depth - 1, "I"), c08_rand_expr(r, depth - 1, "I"))
+            return ("bin", r.choice(["+", "+", "-", "*", "/", "%"]), c08_rand_expr(r, depth - 1, "I"), c08_rand_expr(r, depth - 1, "I"))
         if k < 0.8:
             return ("call", r.choice(["k7", "up", "first"]), c08_rand_expr(r, depth - 1, "T" if r.random() < 0.3 else "I"))
         if k < 0.9:
@@ -1276,9 +1364,11 @@ def c08_rand_expr(r, depth, ty=None):
     if ty == "B":
         if k < 0.6:
             return ("bin", r.choice(["&&", "||"]), c08_rand_expr(r, depth - 1, "B"), c08_rand_expr(r, depth - 1, "B"))
+        if k < 0.7:
+            return ("bin", r.choice(["<", ">", "<=", ">="]), c08_rand_expr(r, depth - 1, "I"), c08_rand_expr(r, depth - 1, "I"))
         if k < 0.85:
             t2 = r.choice("IBT")
-            return ("bin", "==", c08_rand_expr(r, depth - 1, t2), c08_rand_expr(r, depth - 1, t2))
+            return ("bin", r.choice(["==", "!="]), c08_rand_expr(r, depth - 1, t2), c08_rand_expr(r, depth - 1, t2))
         return ("pre", "!", c08_rand_expr(r, depth - 1, "B"))
     if k < 0.75:
         return ("paren", ("tuple", [c08_rand_expr(r, depth - 1) if r.random() < 0.93 else None for _ in range(r.randint(2, 3))]))
@@ -1416,8 +1506,9 @@ def c11_gen(tier, rng):
         e = c08_program(rng)
         src = G.render(G.flatten(e), None, "space")
         kind = rng.choice(["H", "H", "N"])
-        ops = c08_setup() + ["dump", "evc smv " + hexs(src), "ev srv " + hexs(src), "ev nrv " + hexs(src), "dump"]
-        cases.append((G.script(kind, ops), {"kind": "ro-vs-mut", "src": src, "ctx": kind, "assign": has_assign(e),
+        ty = rng.choice("vvvvvvnibte")      # the typed read-only entry points are projections of the same evaluation
+        ops = c08_setup() + ["dump", "evc smv " + hexs(src), "ev sr%s %s" % (ty, hexs(src)), "ev nr%s %s" % (ty, hexs(src)), "dump"]
+        cases.append((G.script(kind, ops), {"kind": "ro-vs-mut", "src": src, "ctx": kind, "assign": has_assign(e), "ty": ty,
                                              "want_ro": list(ref_run(e, True)), "want_mut": list(ref_run(e, False))}))
     # the full language without assignment operators: the two evaluators must agree exactly
     for _ in range(n // 2):
@@ -1468,10 +1559,11 @@ def c11_oracle(case, out, model_out):
         if ro != ro_n:
             return "string-level and tree-level read-only evaluation of %r differ: %s vs %s" % (m["src"], ro, ro_n)
         if m["ctx"] == "H":
-            if not m["assign"] and strip_payload(ro) != strip_payload(mut):
-                return "%r has no assignment operator but eval_with_context gives %s and eval_with_context_mut gives %s" % (m["src"], ro, mut)
-            if strip_payload(ro) != m["want_ro"][0]:
-                return "read-only evaluation of %r gives %s; projecting the mutable run (ContextNotMutable at the first assignment applied, earlier errors first) gives %s" % (m["src"], ro, m["want_ro"][0])
+            ty = m.get("ty", "v")
+            if not m["assign"] and strip_payload(ro) != strip_payload(project_text(ty, mut)):
+                return "%r has no assignment operator but eval_with_context (result type %s) gives %s and eval_with_context_mut gives %s" % (m["src"], ty, ro, mut)
+            if strip_payload(ro) != strip_payload(project_text(ty, m["want_ro"][0])):
+                return "read-only evaluation of %r (result type %s) gives %s; projecting the mutable run (ContextNotMutable at the first assignment applied, earlier errors first) gives %s" % (m["src"], ty, ro, m["want_ro"][0])
         return None
     if m.get("kind") == "agree":
         d0, mut, ro, d1 = steps[-4:]
@@ -1503,6 +1595,14 @@ PROPS["C11"] = {
 # C04: histories of context operations against an abstract map
 # ---------------------------------------------------------------------------------------------
 C04_NAMES = ["a", "b"]
+# more names for the histories: most steps still use a / b so that the steps keep interacting
+C04_MORE_NAMES = ["A", "a1", "_c", "math::x", "ab", "ba", "c", "d", "e2", "zz", "aa", "B"]
+# names that only the API can use (not identifiers of the language)
+C04_API_NAMES = ["", " a", "a ", "é", "true", "1", "a+b", "variables"]
+C04_SEQ_LITERALS = {"T(I1,I2)": "(1, 2)", "E": "()", "T(I1,I2,I3)": "(1, 2, 3)", "T(E,I1)": "(, 1)", "T(I1,F4004000000000000)": "(1, 2.5)",
+                    "T(T(I1,I2),S78)": '((1, 2), "x")'}
+C04_EXTREMES = ["I9223372036854775807", "I-9223372036854775808", "I9223372036854775806", "I9007199254740993", "F7ff0000000000000", "Ffff0000000000000",
+                "F7ff8000000000000", "F4340000000000000", "F7fefffffffffffff", "F0000000000000001", "I3037000500", "I-1"]
 C04_VALUES = ["I1", "I2", "F3ff8000000000000", "F4004000000000000", "S" + hexs("x"), "S" + hexs("yz"), "B1", "B0",
               "F0000000000000000", "F8000000000000000", "I0", "S",
               "T(I1)", "T(I1,I2)", "E", "T()", "T(F0000000000000000)", "T(F8000000000000000)"]
@@ -1557,6 +1657,8 @@ def py_binop(op, a, b):
         x, y = a[1], b[1]
         if op in ("/", "%") and y == 0:
             return "ERR " + ("DivisionError" if op == "/" else "ModulationError")
+        if op == "%" and x == G.I64_MIN and y == -1:
+            return "ERR ModulationError"
         r = {"+": x + y, "-": x - y, "*": x * y, "/": trunc_div(x, y) if y else 0, "%": x - y * trunc_div(x, y) if y else 0}[op]
         if not G.I64_MIN <= r <= G.I64_MAX:
             return "ERR " + {"+": "AdditionError", "-": "SubtractionError", "*": "MultiplicationError", "/": "DivisionError", "%": "ModulationError"}[op]
@@ -1590,20 +1692,38 @@ def c04_history(rng, length):
     A = AbsCtx()
     ops, want = [], []
     clones = []
+    wide = rng.random() < 0.4       # a history over many names and extreme values
     for _ in range(length):
         k = rng.random()
-        x = rng.choice(C04_NAMES)
+        x = rng.choice(C04_NAMES) if not wide or rng.random() < 0.5 else rng.choice(C04_MORE_NAMES)
         if k < 0.22:
-            v = rng.choice(C04_VALUES)
+            v = rng.choice(C04_VALUES) if not wide or rng.random() < 0.5 else rng.choice(C04_EXTREMES)
+            if wide and rng.random() < 0.15:
+                x = rng.choice(C04_API_NAMES)
             ops.append("set %s %s" % (hexs(x), v))
             want.append(A.set_value(x, parse_value(v)))
         elif k < 0.5:
-            v = rng.choice(C04_VALUES[:12])
-            lit = G.literal_of(v)
             aop = rng.choice(G.ASSIGNOPS)
-            src = "%s %s %s" % (x, aop, lit)
-            ops.append("ev smv " + hexs(src))
-            val = parse_value(v)
+            kk = rng.random()
+            if wide and kk < 0.35:          # the right-hand side reads another variable (possibly an extreme value, possibly x itself)
+                y = rng.choice(C04_NAMES + C04_MORE_NAMES[:3])
+                ops.append("ev smv " + hexs("%s %s %s" % (x, aop, y)))
+                if y not in A.vars:
+                    want.append("ERR VariableIdentifierNotFound(%s)" % hexs(y))
+                    ops.append("dump")
+                    want.append(A.dump())
+                    continue
+                val = A.vars[y]
+            elif wide and kk < 0.5:         # a tuple / the empty value written as an expression
+                v = rng.choice(sorted(C04_SEQ_LITERALS))
+                ops.append("ev smv " + hexs("%s %s %s" % (x, aop, C04_SEQ_LITERALS[v])))
+                val = parse_value(v)
+            else:
+                v = rng.choice(C04_VALUES[:12])
+                lit = G.literal_of(v)
+                src = "%s %s %s" % (x, aop, lit)
+                ops.append("ev smv " + hexs(src))
+                val = parse_value(v)
             if aop == "=":
                 r = A.set_value(x, val)
                 want.append("OK E" if r == "OK" else r)
@@ -1834,7 +1954,7 @@ def c09_cases(names_builtin, names_other, rng, full):
 
 def c09_gen(tier, rng):
     full = tier == "thorough"
-    nb = list(L.DOCUMENTED_BUILTINS) if full else C09_BUILTIN_SAMPLE + rng.sample([n for n in L.DOCUMENTED_BUILTINS if n not in C09_BUILTIN_SAMPLE], 8)
+    nb = list(L.DOCUMENTED_BUILTINS)     # every builtin name in both tiers (the quick tier drops half of the clone / clear_functions variants)
     cases = c09_cases(nb, C09_NON_BUILTIN, rng, full)
     # reference results of the builtins themselves (EmptyContextWithBuiltinFunctions), used for self-consistency
     return cases
@@ -2031,6 +2151,22 @@ def c14_oracle(case, out, model_out):
             want = (",".join(nodes_l), str(len(rest)), rest[-1] if rest else "-", "".join(x + ";" for x in rest))
             if (seen, cnt, last, folded) != want:
                 return "Node::iter() of %r used through next() x%d then for_each / count / last / fold gives %s, the pre-order traversal gives %s" % (m["src"], k, (seen, cnt, last, folded), want)
+    ad = re.search(r"adapt<([^>]*)>", out)
+    if ad:
+        N = got.get("nodes", "").split(",") if got.get("nodes") else []
+        I = got.get("ids", "").split(",") if got.get("ids") else []
+        V = got.get("vars", "").split(",") if got.get("vars") else []
+        Fn = got.get("fns", "").split(",") if got.get("fns") else []
+        R = got.get("reads", "").split(",") if got.get("reads") else []
+        nth = lambda l, k: l[k] if k < len(l) else "-"
+        want = "|".join(["nth:" + ",".join(nth(N, k) for k in (0, 1, 2, 5)), "skipcnt:" + ",".join(str(len(N[k:])) for k in (0, 1, 3)),
+                         "step2:" + ",".join(N[::2]), "idnth1:" + nth(I, 1), "idskip1:" + ",".join(I[1:]), "idlast:" + (I[-1] if I else "-"),
+                         "idcnt:%d" % (len(V) + 100 * len(Fn)), "mfe:" + ",".join(N), "mcnt:%d" % len(N), "mlast:" + (N[-1] if N else "-"),
+                         "mfold:" + "".join(x + ";" for x in N), "mnth1:" + nth(N, 1), "mskip2:" + ",".join(N[2:]), "midfe:" + ",".join(I),
+                         "midcnt:%d" % (len(V) + 100 * len(Fn)), "midlast:" + (I[-1] if I else "-"), "midnth1:" + nth(R, 1)])
+        if ad.group(1) != want:
+            bad = [(x, y) for x, y in zip(ad.group(1).split("|"), want.split("|")) if x != y]
+            return "the iterators of %r used through nth / skip / step_by / last / count / for_each / fold give %s, the traversal order gives %s" % (m["src"], bad[0][0][:200], bad[0][1][:200])
     rt = out[out.index("renamed") + 7:]
     if rt != m["renamed"]:
         return "rewriting identifiers of %r through the five mutable iterators gives %s, expected %s" % (m["src"], rt[:300], m["renamed"][:300])
@@ -2183,6 +2319,30 @@ def c06_gen(tier, rng):
         want = "(%s (Const:%s) (Const:%s))" % (G.BIN_NAME[op], "I%d" % int(a, 0) if re.fullmatch(r"\d+|0x[0-9a-f]+", a) else "F%016x" % f_bits(float(a)),
                                                "I%d" % int(b, 0) if re.fullmatch(r"\d+|0x[0-9a-f]+", b) else "F%016x" % f_bits(float(b)))
         tree(a + op + b, "OK (RootNode %s)" % want)
+    F = lambda x: "(Const:F%016x)" % f_bits(float(x))
+    # the signed-exponent join does not depend on what precedes or follows the literal
+    for src, want in [("f 1e-3", "(Fn:66 %s)" % F("1e-3")), ("(2e+1)", "(RootNode %s)" % F("2e1")), ("1, 1e-3", "(Tuple (RootNode (Const:I1)) (RootNode %s))" % F("1e-3")),
+                      ("x = 5e-1", "(Assign (Write:78) %s)" % F("0.5")), ("a 1E-3", "(Fn:61 %s)" % F("1e-3")), ("1e-3;", "(Chain (RootNode %s) (RootNode))" % F("1e-3")),
+                      ("-1e-3", "(Neg %s)" % F("1e-3")), ("!1e+3", "(Not %s)" % F("1e3")), ("2*1e-3*2", "(Mul (Mul (Const:I2) %s) (Const:I2))" % F("1e-3")),
+                      ("(1e-3, 1e+3)", "(RootNode (Tuple (RootNode %s) (RootNode %s)))" % (F("1e-3"), F("1e3"))), ("x=1e-3", "(Assign (Write:78) %s)" % F("1e-3")),
+                      ("1e-3==1e-3", "(Eq %s %s)" % (F("1e-3"), F("1e-3"))), ("max(1e-3,2.5e+1)", "(Fn:6d6178 (RootNode (Tuple (RootNode %s) (RootNode %s))))" % (F("1e-3"), F("25")))]:
+        tree(src, "OK (RootNode %s)" % want)
+    # spellings of the exponent and of the mantissa
+    for s_ in ["1e-05", "1E+007", "1e+0", "2.5e00", "007.5", "00.5e1", "1e-0", "1e+00", "0e-0", "12e-001", "1.e-2", "1.e+2", ".5e-1", ".5E+1", "0.0e+0",
+               "000000000000000000001.5", "1.5000000000000000000000000000000000000000", "1e0000000000000000000001", "0.1e-0000000000000000000001"]:
+        tree(s_, "OK (RootNode %s)" % F(s_))
+    for h, v_ in [("0x00000000000000000001", 1), ("0x" + "0" * 30 + "ff", 255), ("0x0000000000000000", 0), ("0x07fffffffffffffff", 2 ** 63 - 1), ("0x" + "0" * 16 + "1", 1)]:
+        tree(h, "OK (RootNode (Const:I%d))" % v_)
+    # sources that start with a byte-order mark or a zero-width character: part of the word, never skipped
+    for w in ["\ufeffx", "\ufeff1", "\u200bx", "\u200b1", "x\ufeff", "1\ufeff", "\ufefftrue", "\u2060a", "\u00ad1", "\ufeff\"s\""]:
+        if '"' in w:
+            tree(w, "OK (RootNode (Fn:%s (Const:S73)))" % hexs("\ufeff"))
+        else:
+            tree(w, "OK (RootNode (%s))" % classify_word(w))
+    # long literals with many escapes in a row
+    for _ in range(300 if tier == "quick" else 5000):
+        t = "".join(rng.choice('aaa\\\\""b ') for _ in range(rng.randint(14, 80)))
+        tree(quote(t), "OK (RootNode (Const:S%s))" % hexs(t))
     tree("a-1e+2", "OK (RootNode (Sub (Read:61) (Const:F%016x)))" % f_bits(100.0))
     tree("1e+", "OK (RootNode (Add (Read:%s)))" % hexs("1e"))
     tree("1e-x", "OK (RootNode (Sub (Read:%s) (Read:78)))" % hexs("1e"))
@@ -2248,6 +2408,14 @@ def c07_gen(tier, rng):
         cases.append(("TREE\t" + hexs(base), {"kind": "sep-base", "group": group, "src": base}))
         for style in (["tight", "random", "random"] if tier == "quick" else ["tight", "random", "random", "random", "random"]):
             src = G.render(toks, rng, style)
+            if style == "random" and rng.random() < 0.5:
+                # separators before the first and after the last token too (a comment directly before a leading prefix operator,
+                # white space and comments at the very end), and now and then a long run of separators
+                lead = G.rand_separator(rng, False, False)
+                trail = G.rand_separator(rng, False, bool(toks) and toks[-1] == "/")
+                if rng.random() < 0.1:
+                    lead += "".join(G.rand_separator(rng, True, False) for _ in range(rng.randint(3, 12)))
+                src = lead + src + trail
             cases.append(("TREE\t" + hexs(src), {"kind": "sep-variant", "group": group, "src": src, "tokens": toks}))
         group += 1
     # every Unicode whitespace character separates, one at a time
@@ -2256,6 +2424,16 @@ def c07_gen(tier, rng):
             src = a + chr(w) + b
             cases.append(("TREE\t" + hexs(src), {"kind": "ws-char", "src": src, "ws": w, "ref": a + " " + b}))
             cases.append(("TREE\t" + hexs(a + " " + b), {"kind": "ws-ref", "src": a + " " + b}))
+    # the halves of a two-character operator: a comment between them separates exactly as white space does
+    for a, b in (("&", "&"), ("|", "|"), ("=", "="), ("!", "="), ("<", "="), (">", "="), ("+", "="), ("-", "="), ("*", "="), ("/", "="), ("%", "="), ("^", "="),
+                 ("&&", "="), ("||", "="), ("a", "b"), ("1", "2"), ("1e", "-3"), ("1", ".5")):
+        for sep in ("/**/", "/* x */", "//\n", "// y\n", " /**/ ", "/**//**/", "\n"):
+            if a == "/" and sep.startswith("/"):
+                continue
+            src = "p " + a + sep + b + " q"
+            ref = "p " + a + " " + b + " q"
+            cases.append(("TREE\t" + hexs(src), {"kind": "ws-char", "src": src, "ws": 0x20, "ref": ref}))
+            cases.append(("TREE\t" + hexs(ref), {"kind": "ws-ref", "src": ref}))
     # characters that are NOT whitespace must not separate
     for w in (0x200B, 0x2060, 0xFEFF, 0x180E, 0x1F, 0x7F, 0x200C):
         src = "a" + chr(w) + "b"
@@ -2294,7 +2472,7 @@ def c07_post(cases, impl, model):
         if m.get("kind") == "ws-char":
             out = impl.get(str(i), "")
             if out != refs.get(m["ref"]):
-                fails.append((i, "U+%04X is a Unicode whitespace character but %r precompiles to %s while %r gives %s" % (m["ws"], m["src"], out[:150], m["ref"], refs.get(m["ref"], "")[:150])))
+                fails.append((i, "a separator (white space U+%04X or a comment) is replaced by a space: %r precompiles to %s while %r gives %s" % (m["ws"], m["src"], out[:150], m["ref"], refs.get(m["ref"], "")[:150])))
     return fails
 
 
@@ -2519,7 +2697,7 @@ def c15_special(tier, rng, hooks):
 PROPS["C15"] = {
     "gen": c15_gen, "special": c15_special, "level": "other",
     "explanation": "partial: rustc decides Send + Sync, a Coq theorem gives schedule independence under the no-shared-mutable-state premise, a source audit establishes the premise, a stress run samples real interleavings",
-    "rule": "Send + Sync of the eight public types decided by rustc (harness feature sendsync); purity audit of src/ (no static, thread_local, Cell, RefCell, UnsafeCell, Mutex, RwLock, Atomic*, Once*, Rc, unsafe; forbid(unsafe_code) present); stress run: 16 threads x 8 rounds evaluating shared Arc<Node> against one shared Arc<HashMapContext>, each result compared with the sequential one; plus the ordinary correspondence of read-only evaluation; non-trivial = every program",
+    "rule": "Send + Sync of the eight public types decided by rustc (harness feature sendsync); purity audit of src/ (no static, thread_local, Cell, RefCell, UnsafeCell, Mutex, RwLock, Atomic*, Once*, Rc, unsafe; forbid(unsafe_code) present); stress run: 16 threads, phase 1: all threads evaluate the same shared Arc<Node> at the same time (barrier per tree, 40 rounds), phase 2: every thread walks all trees in an order of its own (6 rounds), against one shared Arc<HashMapContext> with a user function that takes 40 microseconds; trees: every operator and builtin on operands of every type, random programs, trees of depth 100-900; each result compared with the sequential one; plus the ordinary correspondence of read-only evaluation; non-trivial = every program",
     "nontrivial": lambda c, out: True,
     "assumptions": ["real interleavings under the hardware memory model are outside any Gallina model: the theorem assumes thread-private state and shared immutable data, the audit and rustc establish that premise for this tree",
                     "PARTIAL: a cache behind a Mutex would pass rustc, fail the audit and be reported as no-failing-input-found unless the stress run catches a wrong result"],
